@@ -7,7 +7,7 @@ From Centro Require Import Base.Sx Base.EmdBase Spec.Emd Model.Emd Model.EmdCert
   Proofs.EmdMcfCert Proofs.EmdHeapMem Proofs.EmdDijkstra Proofs.EmdDijkstraInit
   Proofs.EmdTight Proofs.EmdGhost Proofs.EmdCspPost Proofs.EmdPairAddr Proofs.EmdGraphShape Proofs.EmdAugment Proofs.EmdRun Proofs.EmdConserve Proofs.EmdConserveRun Proofs.EmdIndex Proofs.EmdOptimal Proofs.EmdWrap.
 From Centro Require Import Model.EmdAsIs Model.EmdW Proofs.EmdWrap2 Model.EmdP Proofs.EmdNoWrap.
-From Centro Require Import Model.EmdMcf Proofs.EmdProgLL Proofs.EmdEndToEnd.
+From Centro Require Import Model.EmdMcf Proofs.EmdProgLL Proofs.EmdEndToEnd Proofs.EmdConserve Proofs.EmdXCaps Proofs.EmdReadBack Proofs.EmdDist.
 Import ListNotations.
 Open Scope Z_scope.
 
@@ -723,3 +723,67 @@ Theorem C10_emd_int32_correct_below_bound_partial : forall p q c pen ft gd d F,
     d' = d /\ F' = F /\ emd_spec p q c (penalty_of c pen) d.
 Proof. exact emd_int32_correct_below_bound_partial. Qed.
 Print Assumptions C10_emd_int32_correct_below_bound_partial.
+
+(* ------------------------------------------------------------------------------------------------
+   Round 16.  read_back_bookkeeping, the solver half and the read-back half (the graph-reduction half
+   is what remains, see the end).
+   C10_x_caps_consistent — at Done of the flagged run with the flag clear, between ANY two nodes the x
+   lists that min_cost_flow returns (and read_back reads) carry the same NET flow as the backward
+   capacities, i.e. as the flow proved of minimum cost; and no entry of x points at its own node.
+   (capto t l = sum of the third components of the entries of l whose first component is t.) *)
+Theorem C10_x_caps_consistent : forall nv c, length c = nv -> forall e st fl, length e = nv ->
+  (forall l tc, In l c -> In tc l -> (fst tc < nv)%nat /\ 0 <= snd tc) ->
+  mcf_iter_f ssp_levels (mcf_init e c) false = (MDone st, fl) -> fl = false ->
+  (forall u v, capto v (nth u (m_x st) []) - capto u (nth v (m_x st) []) =
+               capto u (nth v (m_rb st) []) - capto v (nth u (m_rb st) [])) /\
+  (forall u, capto u (nth u (m_x st) []) = 0).
+Proof. exact x_caps_consistent. Qed.
+Print Assumptions C10_x_caps_consistent.
+
+(* the distance: x_dist of the returned lists = cost of the arc-indexed capacity flow *)
+Theorem C10_mcf_dist_is_capflow_cost : forall nv c, length c = nv ->
+  (forall l tc, In l c -> In tc l -> (fst tc < nv)%nat /\ 0 <= snd tc) ->
+  forall e st fl, length e = nv ->
+  mcf_iter_f ssp_levels (mcf_init e c) false = (MDone st, fl) -> fl = false ->
+  x_dist (m_x st) = gcost (sk_of c) (capflow c (m_rb st)).
+Proof. exact dist_is_capflow_cost. Qed.
+Print Assumptions C10_mcf_dist_is_capflow_cost.
+
+(* solver level, composed with the int32 chain, no open premise besides the per-case flag: below the
+   bound the number min_cost_flow.hpp as written for int returns is THE MINIMUM COST of the graph it
+   was given (attained by a non-negative conserving flow, and a lower bound for all of them) *)
+Theorem C10_mcf_int32_returns_min_cost : forall e c md x,
+  okp (min_cost_flow_p e c) = true ->
+  run wrap32 (min_cost_flow_p e c) = (0, md, x) ->
+  length c = length e ->
+  (forall l tc, In l c -> In tc l -> (fst tc < length e)%nat /\ 0 <= snd tc) ->
+  zsum e = 0 ->
+  forall r fl, mcf_iter_f ssp_levels (mcf_init e c) false = (r, fl) -> fl = false ->
+  let sk := sk_of c in
+  (exists f, (forall k, In k (idx sk) -> 0 <= f k) /\ (forall v, (v < length e)%nat -> gout sk f v = nz e v) /\ md = gcost sk f) /\
+  (forall g, (forall k, In k (idx sk) -> 0 <= g k) -> (forall v, (v < length e)%nat -> gout sk g v = nz e v) -> md <= gcost sk g).
+Proof. exact mcf_int32_returns_min_cost. Qed.
+Print Assumptions C10_mcf_int32_returns_min_cost.
+
+(* read_back, cell by cell (any x, any reduced record): every entry of the x lists is skipped or adds
+   +/- its flow to one cell (Proofs.EmdReadBack.rb_target mirrors the code), so an in-range cell of the
+   result is the cell of F0 plus the contributions aimed at it *)
+Theorem C10_read_back_cells : forall r x F0 i j, inr F0 i j = true ->
+  mz (read_back r x F0) i j = mz F0 i j + zsum (map (op_contrib (rb_target r) i j) (entries x)).
+Proof. exact read_back_cells. Qed.
+Print Assumptions C10_read_back_cells.
+
+(* per-cell read-back equality: at Done of the flagged run with the flag clear, what read_back adds to
+   an in-range cell (i, j) is the net CAPACITY flow of the node pairs u < v that the code maps to that
+   cell (sel r i j u v = 1 iff neither node is the threshold node, v is a sink and (old name of u,
+   old name of v - N), transposed when the problem was swapped, is (i, j)) *)
+Theorem C10_read_back_net_capacity : forall nv c e st fl r F0 i j, length c = nv -> length e = nv ->
+  (forall l tc, In l c -> In tc l -> (fst tc < nv)%nat /\ 0 <= snd tc) ->
+  mcf_iter_f ssp_levels (mcf_init e c) false = (MDone st, fl) -> fl = false ->
+  inr F0 i j = true ->
+  mz (read_back r (m_x st) F0) i j = mz F0 i j +
+    zsum (map (fun u => zsum (map (fun v =>
+       if (u <? v)%nat then sel r i j u v * (capto u (nth v (m_rb st) []) - capto v (nth u (m_rb st) [])) else 0)
+       (seq 0 nv))) (seq 0 nv)).
+Proof. exact read_back_net_capacity. Qed.
+Print Assumptions C10_read_back_net_capacity.
